@@ -285,6 +285,11 @@ def _c03_monitor(sc, c, outcome):
     for v in ms.mon_c03(sc, c):
         # attributed to a finding only if every offending key belongs to a connection with that finding's feature;
         # keys fed by a simulator that omits its persistent outputs are not claimed at all
+        if v.get("preset_finding"):
+            v["finding"] = v.pop("preset_finding")
+            v.pop("keys", None), v.pop("nonmono", None)
+            out.append(v)
+            continue
         nonmono = set(v.pop("nonmono", []))
         classes = [ms.c03_conn_class(sc, v["sim"], k, nonmono) for k in v.pop("keys", [])]
         classes = [x for x in classes if x != "C03-sparse-persistent"]
@@ -305,6 +310,10 @@ def _c03_replays(o, driver, rng):
         outcome, c = scorr.run_impl(sc, w["schedule_seed"])
         o.monitor_stats["known_finding_replays"] = o.monitor_stats.get("known_finding_replays", 0) + 1
         v = ms.mon_c03(sc, c)
+        if f["id"] == "C03-same-connection-events-collapse":
+            v = [x for x in v if x.get("preset_finding") == f["id"]]
+        else:
+            v = [x for x in v if not x.get("preset_finding")]
         if v:
             o.violations.append({**v[0], "finding": f["id"], "scenario": w["scenario"], "schedule_seed": w["schedule_seed"]})
 
@@ -461,7 +470,8 @@ def _c04(o, driver, rng):
         # half of the budget on scenarios outside every known data-flow finding class (where a difference is never masked)
         sc = (scorr.gen_scenario, scorr.gen_clean_scenario, scorr.gen_fanin_scenario,
               lambda r: scorr.gen_scenario(r, async_req=True),               # async_requests connections (D18 lived there)
-              scorr.gen_multi_shift_scenario)[k % 5](rng)                   # one cached output read with several time shifts
+              scorr.gen_multi_shift_scenario,                               # one cached output read with several time shifts
+              scorr.gen_async_echo_scenario)[k % 6](rng)                    # agents whose set_data values are computed from their get_data answers
         sc["sparse_persistent"] = False       # omitting a persistent output is a simulator-side contract breach (mosaik warns); see DESIGN.md
         if scorr.nonuniform_cutoff(sc, False):
             continue
